@@ -37,7 +37,9 @@ Pkgs == DOMAIN Imports
 Qual(k) == IF Imports[k].alias # "" THEN Imports[k].alias ELSE Imports[k].declared
 Cfg == [style: Styles, recv: BOOLEAN, reverse: BOOLEAN, srcPtr: BOOLEAN, dstPtr: BOOLEAN,
         retErr: BOOLEAN, nargs: 0..MaxArgs, named: BOOLEAN, namedRes: BOOLEAN, imp: Imps, pkg: Pkgs,
-        recvBlank: BOOLEAN]      \* the receiver name of the notation is the blank identifier: it cannot be referred to
+        recvBlank: BOOLEAN,      \* the receiver name of the notation is the blank identifier: it cannot be referred to
+        twin: BOOLEAN]           \* another converter interface of the file has a method of the SAME name with the SAME receiver
+                                 \* name on ANOTHER source type: two methods of two types - the header of this one is what it is
 
 VARIABLES cfg, pc, shape
 vars == <<cfg, pc, shape>>
@@ -70,7 +72,8 @@ NoRecv == P("", "")
 \* the import form matters only when an operand is imported; forms other than the
 \* plain one are explored with the parameter names left to the tool
 Init == cfg \in {c \in Cfg : (c.imp = "none" => c.pkg = "ext") /\ (c.pkg # "ext" => ~c.named /\ ~c.namedRes)
-                       /\ (c.recvBlank => c.recv /\ ~c.reverse /\ c.nargs = 0 /\ ~c.named /\ ~c.namedRes /\ c.imp = "none")} /\ pc = "validate" /\ shape = [reject |-> FALSE, recv |-> NoRecv, params |-> << >>, results |-> << >>]
+                       /\ (c.recvBlank => c.recv /\ ~c.reverse /\ c.nargs = 0 /\ ~c.named /\ ~c.namedRes /\ c.imp = "none")
+                       /\ (c.twin => c.recv /\ ~c.recvBlank /\ ~c.named /\ ~c.namedRes /\ c.imp = "none" /\ c.nargs <= 1)} /\ pc = "validate" /\ shape = [reject |-> FALSE, recv |-> NoRecv, params |-> << >>, results |-> << >>]
 
 Reject == shape' = [reject |-> TRUE, recv |-> NoRecv, params |-> << >>, results |-> << >>] /\ pc' = "done"
 
